@@ -8,7 +8,8 @@ git merge agent-$P -m "Merge agent-$P" >/dev/null 2>&1 || true
 for f in $(git diff --name-only --diff-filter=U | grep "^evidence/"); do git checkout --theirs $f; git add $f; done
 git checkout --ours MANIFEST.json known_findings.json DESIGN.md 2>/dev/null || true
 git rm -q --cached coq/_CoqProject 2>/dev/null || true
-for f in $(git diff --name-only --diff-filter=U); do echo "UNRESOLVED: $f"; done
+for f in $(git diff --name-only --diff-filter=U); do echo "UNRESOLVED: $f"; UNRES=1; done
+if [ -n "$UNRES" ]; then echo "merge left with conflicts: resolve by hand, then run mkmanifest/mkdesign and commit"; exit 1; fi
 python3 tools/mkmanifest.py
 python3 tools/mkdesign.py >/dev/null
 git add -A
